@@ -50,6 +50,73 @@ def forms():
         yield "associative_swap", f"a {op} (b {op} c)", True, "inner"
 
 
+HISTORY_FORMS = ["{a}x + {c}y + {b}x", "{a}x + {b}x + {c}y", "{c}y + {a}x + {b}x", "{a}x^2 + {b}x^2 + {c}", "({a}x + {b}x) + ({c}y + z)",
+                 "{a}x * {b}x * y", "{a} * (x + {b}) + {c}x", "{a}x - {b}x + {c}x", "{a}x + {b}x = {c}y + z"]
+
+
+def _answers(rule, rname, root):
+    """What a rule instance says about every node of a tree: applicability and the text of the result."""
+    out = []
+    for i, n in enumerate(nodes_inorder(root)):
+        try:
+            can = rule.can_apply_to(n)
+        except Exception as e:  # noqa: BLE001
+            out.append((i, f"raised {type(e).__name__}"))
+            continue
+        if not can:
+            out.append((i, False))
+            continue
+        try:
+            out.append((i, str(rule.apply_to(n.clone_from_root()).result.get_root())))
+        except Exception as e:  # noqa: BLE001
+            out.append((i, f"apply raised {type(e).__name__}"))
+    return out
+
+
+def history_cases(fails, tier):
+    """A long-lived rule instance answers exactly as a fresh one: the documented forms are accepted (and the
+    documented non-forms refused) whatever was asked before and however the tree was edited in place since."""
+    from rules_tierb import RULES  # type: ignore
+
+    n = 0
+    triples = [("2", "3", "5"), ("4", "0.5", "7")] if tier == "quick" else [("2", "3", "5"), ("4", "0.5", "7"), ("-3", "6", "2"), ("10", "12.5", "3")]
+    for form in HISTORY_FORMS:
+        for a, b, c in triples:
+            text = form.format(a=a, b=b, c=c)
+            for editor in ("commutative_swap", "associative_swap"):
+                try:
+                    probe = ExpressionParser().parse(text).clone()
+                except Exception:  # noqa: BLE001
+                    continue
+                n_nodes = len(nodes_inorder(probe))
+                for k in range(n_nodes):
+                    root = ExpressionParser().parse(text).clone()
+                    target = nodes_inorder(root)[k]
+                    ed = make_rule(editor)
+                    if not ed.can_apply_to(target):
+                        continue
+                    shared = {r: make_rule(r) for r in RULES}
+                    for r, rule in shared.items():
+                        _answers(rule, r, root)  # earlier questions about the same node objects
+                    try:
+                        root = ed.apply_to(target).result.get_root()  # in place: the node objects stay, their operands move
+                    except Exception:  # noqa: BLE001
+                        continue
+                    after = str(root)
+                    for r, rule in shared.items():
+                        n += 1
+                        got = _answers(rule, r, root)
+                        want = _answers(make_rule(r), r, root)
+                        if str(root) != after:
+                            fails.append({"clause": "applicability-check-is-pure", "cfg": r, "detail": f"asking {r} about `{after}` changed it to `{root}`"})
+                            break
+                        if got != want:
+                            i = next(j for j, (x, y) in enumerate(zip(got, want)) if x != y)
+                            fails.append({"clause": "long-lived-rule-answers-as-a-fresh-one", "cfg": r,
+                                          "detail": f"{r}: after {editor} at node {k} of `{text}` gave `{after}`, the rule object that had been asked about the tree before answers {got[i][1]!r} at in-order node {got[i][0]}, a fresh one {want[i][1]!r}"[:400]})
+    return n
+
+
 def main():
     tier = sys.argv[1] if len(sys.argv) > 1 else "quick"
     fails = []
@@ -99,6 +166,7 @@ def main():
                 if not same:
                     fails.append({"clause": "value-preserved-on-documented-form", "cfg": rname, "detail": f"{rname} on `{target}` inside `{text}` -> `{res}`"})
                     break
+    cases += history_cases(fails, tier)
     seen = {}
     for f in fails:
         seen.setdefault((f["clause"], f["cfg"], f["detail"][:50]), f)
